@@ -87,24 +87,29 @@ type c03Case struct {
 	Yield     bool   `json:"yield,omitempty"`      // the transport reschedules inside every Write
 	Size      int    `json:"size,omitempty"`       // payload bytes of a single-chunk WRITE / READ length
 	GraceMs   int    `json:"grace_ms,omitempty"`   // how long a held Write waits for the transport's Close before it is released
+
+	// family "names" (c03_names.go): every request kind × length of its path / server-chosen handle × payload size
+	Group string        `json:"group,omitempty"` // the kinds of the session's calls (hang class)
+	Calls []c03NameCall `json:"calls,omitempty"`
 }
 
 type c03Res struct {
-	Calls       int            `json:"calls"`
-	Requests    int            `json:"requests"`
-	Batches     map[string]int `json:"batches"` // batch size -> count
-	Reordered   int            `json:"reordered_batches"`
-	MaxOut      int            `json:"max_outstanding"`
-	OpHist      map[string]int `json:"ops"`
-	Wrapped     bool           `json:"wrapped"`
-	Speculative int            `json:"speculative_reads,omitempty"` // READs of a concurrent WriteTo beyond the chunk that reported EOF
-	Trace       []string       `json:"trace,omitempty"`
-	Conn        *connLine      `json:"conn,omitempty"`     // the recorded schedule as conn.run tokens + observed outcomes
-	ChanObs     []string       `json:"chan_obs,omitempty"` // the same window for chan.run: a<sid>/<channel class>, r<sid>:<tag> (cli_chan.go)
-	ChanClass   map[string]int `json:"chan_classes,omitempty"`
-	CloseObs    *c03CloseObs   `json:"close_obs,omitempty"` // family "close"
-	Fails       []c20Fail      `json:"fails,omitempty"`
-	ExitNow     bool           `json:"-"`
+	Calls       int             `json:"calls"`
+	Requests    int             `json:"requests"`
+	Batches     map[string]int  `json:"batches"` // batch size -> count
+	Reordered   int             `json:"reordered_batches"`
+	MaxOut      int             `json:"max_outstanding"`
+	OpHist      map[string]int  `json:"ops"`
+	Wrapped     bool            `json:"wrapped"`
+	Speculative int             `json:"speculative_reads,omitempty"` // READs of a concurrent WriteTo beyond the chunk that reported EOF
+	Trace       []string        `json:"trace,omitempty"`
+	Conn        *connLine       `json:"conn,omitempty"`     // the recorded schedule as conn.run tokens + observed outcomes
+	ChanObs     []string        `json:"chan_obs,omitempty"` // the same window for chan.run: a<sid>/<channel class>, r<sid>:<tag> (cli_chan.go)
+	ChanClass   map[string]int  `json:"chan_classes,omitempty"`
+	CloseObs    *c03CloseObs    `json:"close_obs,omitempty"`  // family "close"
+	MinInputs   map[int]c03Case `json:"min_inputs,omitempty"` // family "names": index into Fails → the one-call session that fails the same way
+	Fails       []c20Fail       `json:"fails,omitempty"`
+	ExitNow     bool            `json:"-"`
 }
 
 func c03Child(idx int, raw json.RawMessage) (any, bool) {
@@ -118,6 +123,8 @@ func c03Child(idx int, raw json.RawMessage) (any, bool) {
 		res = c03RunCtx(cs)
 	case "close":
 		res = c03RunClose(cs)
+	case "names":
+		res = c03RunNames(cs)
 	default:
 		res = c03Run(cs)
 	}
@@ -1283,7 +1290,7 @@ func head(s []string, n int) []string {
 func checkC03(c *lib.Ctx) {
 	r := c.R
 	thorough := c.Tier == "thorough"
-	r.Rule = "family 1: run = (callers 1…16, reply order perm|reverse|delay|fifo, seed, MaxPacket, concurrent writes on/off, big multi-chunk writes, id counter started just below 2^32): every caller issues a PRNG mix of 18 self-identifying operations (Stat/Lstat/ReadLink/RealPath/Mkdir/Rename/ReadDir/StatVFS/Open+Close/File.Stat/ReadAt and WriteAt single- and multi-chunk on a shared and an own File/Write+Read) on one Client; the peer answers the requests outstanding at a quiescent moment in a PRNG permutation of a PRNG subset, strictly reversed, one at a time with delays, or in order. Three runs in four add PER-REQUEST STATUS replies to the mix: Stat, Lstat, ReadLink, RealPath, StatVFS, OpenFile, Mkdir, RemoveDirectory, Rename, Chmod, and File.Stat / single-chunk ReadAt / WriteAt on a file opened for the purpose, whose request (by its content: the code is part of the path) the peer answers with a STATUS of a PRNG code out of 0…8, 9, 255, 256 (0 only where STATUS is the regular reply) while the other callers' requests are outstanding, in every reply order; the failing call must return an error carrying exactly that code (io.EOF / os.ErrNotExist / os.ErrPermission for 1 / 2 / 3, a *StatusError with the code and the message built for this request otherwise, nil for 0), every other call its own result. A run is non-trivial when at least one batch of ≥2 outstanding requests was answered out of arrival order; distinct by run parameters. Client options: the 72 combinations of MaxPacket constructor (MaxPacketUnchecked | MaxPacketChecked | the MaxPacket alias) × MaxConcurrentRequestsPerFile (1 | 2 | default) × UseConcurrentReads (not given | false | true) × UseFstat (not given | true | false) are dealt over the runs in rotation. Two runs in three add File transfers to the mix: File.WriteTo (from a PRNG offset to the end of a file of 0, 1, MaxPacket-1/+0/+1, 3·MaxPacket(+1) or PRNG bytes; sequential, or concurrent with its STAT/FSTAT and its speculative reads), File.ReadFrom (readers with Len, Size, Stat, *io.LimitedReader, or none of them) and File.ReadFromWithConcurrency (0, 1, 2, 3, 100) of the same sizes, each on a fresh File and on a File all callers share (the transfer holds the File's exclusive lock while other callers' ReadAt / WriteAt / Stat on the same File wait and must still get their own results); the wire must carry exactly the requests these calls imply (READs of a concurrent WriteTo beyond the chunk that reported EOF are allowed and counted). Family 3 (peer I/O disciplines, cli_iopeer.go): the family-1 mixes (3…16 callers, all reply modes, transfers in two runs of three, PRNG options) over a transport of chosen back-pressure — synchronous (a Write blocks until the other side has read all of it), 64-byte, 4 KiB, 1 MiB buffers, both directions — against a peer of a chosen I/O discipline: eager (reads in a goroutine of its own), batch1/2/3/8 (ONE thread: reads up to k requests — waiting as long as it takes only while it owes no reply, else 150 µs —, then writes the replies chosen by the reply mode, NOT reading while it writes, then returns to reading; it may stop reading in the middle of a frame), slow (k PRNG 1…4, think time ≤ 400 µs before every read and before writing), bytewise (batch2 reading and writing in pieces of 1…7 bytes); quick 56 runs, thorough 1344. Same oracles (nothing hangs within the hang budget, every call gets the reply to its own request, framing, Close returns). Family 4 (close, c03_close.go): over a recording transport that accepts every Write call in two halves and can hold the Write call at a chosen position of a chosen frame (entered / half accepted / fully accepted and not returned, for the call that starts the frame and for a further call of the same frame; fully accepted for the call that completes it; or nothing held and the frame complete), the session is ended by Client.Close on another goroutine, EOF on the read side, a read error, a reply with an unknown id, a reply with an absurd length, or Close and EOF together, while that call is held; the call is released when the transport's Close was entered or after a grace period. Targets: the first frame of every API that sends WRITE (WriteAt, Write, ReadFrom, ReadFromWithConcurrency, concurrent WriteAt), SETSTAT (Chmod, Chown, Chtimes, Truncate), FSETSTAT (File.Chmod, Chown, Truncate), OPEN (Open, Create, OpenFile) and of seven requests without payload; 0/2/5 bystanders keep sending WRITE / SETSTAT / FSETSTAT / STAT / READ requests; the target is answered or left outstanding; quick: packet kind × hold point × closer with the API dealt in rotation (210 runs) + 36 runs with nothing held (3…12 callers over a transport that yields inside every Write, ended after 1…60 frames); thorough: every API × hold point × closer four times (3696 runs) + 1500. Oracles: the bytes on the wire when the transport was closed split into whole frames; no Close entered while a Write call is in progress nor a Write call while a Close or another Write is; every frame decodes as an issued request. A run is non-trivial when a Write call was held, or requests were outstanding, when the session ended. Family 2 (abandoned request): ReadDirContext is cancelled while its OPENDIR, first READDIR or second READDIR is outstanding (the peer holds it); the deferred CLOSE, 1…6 self-identifying follow-up calls of the same caller and the calls of 0/1/3/8 concurrent callers run; the peer answers the abandoned request late (regular reply or STATUS) before the j-th follow-up reply, j PRNG incl. 0 = before the CLOSE reply, or after all calls completed; three more calls follow; 8 (quick) / 25 (thorough) abandoned requests per run."
+	r.Rule = "family 1: run = (callers 1…16, reply order perm|reverse|delay|fifo, seed, MaxPacket, concurrent writes on/off, big multi-chunk writes, id counter started just below 2^32): every caller issues a PRNG mix of 18 self-identifying operations (Stat/Lstat/ReadLink/RealPath/Mkdir/Rename/ReadDir/StatVFS/Open+Close/File.Stat/ReadAt and WriteAt single- and multi-chunk on a shared and an own File/Write+Read) on one Client; the peer answers the requests outstanding at a quiescent moment in a PRNG permutation of a PRNG subset, strictly reversed, one at a time with delays, or in order. Three runs in four add PER-REQUEST STATUS replies to the mix: Stat, Lstat, ReadLink, RealPath, StatVFS, OpenFile, Mkdir, RemoveDirectory, Rename, Chmod, and File.Stat / single-chunk ReadAt / WriteAt on a file opened for the purpose, whose request (by its content: the code is part of the path) the peer answers with a STATUS of a PRNG code out of 0…8, 9, 255, 256 (0 only where STATUS is the regular reply) while the other callers' requests are outstanding, in every reply order; the failing call must return an error carrying exactly that code (io.EOF / os.ErrNotExist / os.ErrPermission for 1 / 2 / 3, a *StatusError with the code and the message built for this request otherwise, nil for 0), every other call its own result. A run is non-trivial when at least one batch of ≥2 outstanding requests was answered out of arrival order; distinct by run parameters. Client options: the 72 combinations of MaxPacket constructor (MaxPacketUnchecked | MaxPacketChecked | the MaxPacket alias) × MaxConcurrentRequestsPerFile (1 | 2 | default) × UseConcurrentReads (not given | false | true) × UseFstat (not given | true | false) are dealt over the runs in rotation. Two runs in three add File transfers to the mix: File.WriteTo (from a PRNG offset to the end of a file of 0, 1, MaxPacket-1/+0/+1, 3·MaxPacket(+1) or PRNG bytes; sequential, or concurrent with its STAT/FSTAT and its speculative reads), File.ReadFrom (readers with Len, Size, Stat, *io.LimitedReader, or none of them) and File.ReadFromWithConcurrency (0, 1, 2, 3, 100) of the same sizes, each on a fresh File and on a File all callers share (the transfer holds the File's exclusive lock while other callers' ReadAt / WriteAt / Stat on the same File wait and must still get their own results); the wire must carry exactly the requests these calls imply (READs of a concurrent WriteTo beyond the chunk that reported EOF are allowed and counted). Family 3 (peer I/O disciplines, cli_iopeer.go): the family-1 mixes (3…16 callers, all reply modes, transfers in two runs of three, PRNG options) over a transport of chosen back-pressure — synchronous (a Write blocks until the other side has read all of it), 64-byte, 4 KiB, 1 MiB buffers, both directions — against a peer of a chosen I/O discipline: eager (reads in a goroutine of its own), batch1/2/3/8 (ONE thread: reads up to k requests — waiting as long as it takes only while it owes no reply, else 150 µs —, then writes the replies chosen by the reply mode, NOT reading while it writes, then returns to reading; it may stop reading in the middle of a frame), slow (k PRNG 1…4, think time ≤ 400 µs before every read and before writing), bytewise (batch2 reading and writing in pieces of 1…7 bytes); quick 56 runs, thorough 1344. Same oracles (nothing hangs within the hang budget, every call gets the reply to its own request, framing, Close returns). Family 4 (close, c03_close.go): over a recording transport that accepts every Write call in two halves and can hold the Write call at a chosen position of a chosen frame (entered / half accepted / fully accepted and not returned, for the call that starts the frame and for a further call of the same frame; fully accepted for the call that completes it; or nothing held and the frame complete), the session is ended by Client.Close on another goroutine, EOF on the read side, a read error, a reply with an unknown id, a reply with an absurd length, or Close and EOF together, while that call is held; the call is released when the transport's Close was entered or after a grace period. Targets: the first frame of every API that sends WRITE (WriteAt, Write, ReadFrom, ReadFromWithConcurrency, concurrent WriteAt), SETSTAT (Chmod, Chown, Chtimes, Truncate), FSETSTAT (File.Chmod, Chown, Truncate), OPEN (Open, Create, OpenFile) and of seven requests without payload; 0/2/5 bystanders keep sending WRITE / SETSTAT / FSETSTAT / STAT / READ requests; the target is answered or left outstanding; quick: packet kind × hold point × closer with the API dealt in rotation (210 runs) + 36 runs with nothing held (3…12 callers over a transport that yields inside every Write, ended after 1…60 frames); thorough: every API × hold point × closer four times (3696 runs) + 1500. Oracles: the bytes on the wire when the transport was closed split into whole frames; no Close entered while a Write call is in progress nor a Write call while a Close or another Write is; every frame decodes as an issued request. A run is non-trivial when a Write call was held, or requests were outstanding, when the session ended. Family 5 (names, c03_names.go): the LENGTH of the names a request carries: 32 operations (every request kind of the client API: Stat, Lstat, ReadLink, RealPath, Mkdir, RemoveDirectory, Remove, StatVFS, Rename, PosixRename, Symlink, Link with a long and a short name both ways, Open, Create, OpenFile, ReadDir, Chmod, Chown, Chtimes, Truncate, SetExtendedData on a path; File.Stat, ReadAt, Sync, READDIR+CLOSE of a directory handle, File.Chmod, Chown, Truncate, SetExtendedData, WriteAt, Write, ReadFrom on a handle) × path lengths 1…320 contiguous (thorough 1…4200) and 2^k-1, 2^k, 2^k+1 for k = 9…16 × lengths 1…256 of the handle the scripted peer hands out for the call's OPEN / OPENDIR × payload sizes (file data of 0, 1, 63, 64, 65, 255, 256, 257, MaxPacket, MaxPacket+1 bytes, thorough also 2, 31…33, 127…129, 511…513; attribute blocks of 4 and 8 bytes and, with extended attributes, of 15…257 bytes) × names of printable bytes in components of at most 199 bytes / of arbitrary bytes; the calls of a group of kinds in PRNG order in sessions of 192 calls, 1, 2, 3, 8 or 16 callers (mixed-kind sessions 5…16), replies in order / PRNG permutation of a PRNG subset / reversed, MaxPacket 32768, 1024 or 64, UseConcurrentWrites and a transport that yields inside every Write in rotation. The peer builds every reply from the bytes of the request it answers (sizes, names and STATUS verdicts are hashes of them). Oracles: the recorded stream splits into whole frames without a tail; every frame equals, the id aside, a frame the independent codec builds for the arguments of a call, every request of every completed call is on the wire; every call returns within the hang deadline (one deadline per session) with the result built for its own request; ids in flight pairwise distinct. Each call counts as one case. A failure attributed to a call is re-run alone in a one-call session, which becomes its input if it fails the same way; other failures of a concurrent session that fell out of step are keyed …/in-a-concurrent-session. Family 2 (abandoned request): ReadDirContext is cancelled while its OPENDIR, first READDIR or second READDIR is outstanding (the peer holds it); the deferred CLOSE, 1…6 self-identifying follow-up calls of the same caller and the calls of 0/1/3/8 concurrent callers run; the peer answers the abandoned request late (regular reply or STATUS) before the j-th follow-up reply, j PRNG incl. 0 = before the CLOSE reply, or after all calls completed; three more calls follow; 8 (quick) / 25 (thorough) abandoned requests per run."
 	var cases []c03Case
 	if c.Replay != "" {
 		var one c03Case
@@ -1402,10 +1409,20 @@ func checkC03(c *lib.Ctx) {
 		// family "close" (c03_close.go): the session is ended while a request is being written
 		cases = append(cases, c03CloseCases(c.Rand, thorough)...)
 	}
+	if c.Replay == "" {
+		// family "names" (c03_names.go): request kind × length of the path / of the server-chosen handle × payload size
+		cases = append(cases, c03NamesCases(c.Rand, thorough)...)
+	}
 	if fam := os.Getenv("VH_C03_FAMILY"); fam != "" && c.Replay == "" {
 		// debugging aid: only the peer-I/O-discipline family ("io"), only the close family ("close"), or everything else ("noio")
 		var keep []c03Case
 		for _, cs := range cases {
+			if fam == "names" || cs.Kind == "names" {
+				if (fam == "names") == (cs.Kind == "names") {
+					keep = append(keep, cs)
+				}
+				continue
+			}
 			if fam == "close" || cs.Kind == "close" {
 				if (fam == "close") == (cs.Kind == "close") {
 					keep = append(keep, cs)
@@ -1419,7 +1436,7 @@ func checkC03(c *lib.Ctx) {
 		cases = keep
 	}
 	for i := range cases {
-		if cases[i].ConnCap == 0 && cases[i].Kind != "close" {
+		if cases[i].ConnCap == 0 && cases[i].Kind != "close" && cases[i].Kind != "names" {
 			cases[i].ConnCap = 150
 			if thorough {
 				cases[i].ConnCap = 300
@@ -1449,6 +1466,7 @@ func checkC03(c *lib.Ctx) {
 		return
 	}
 	calls, reqs, reordered, wrapped, abandoned, specReads, closeRuns := 0, 0, 0, 0, 0, 0, 0
+	nameRuns, nameCalls, nameReqs := 0, 0, 0
 	var connLines []connLine
 	var connInputs []any
 	connReqs := 0
@@ -1490,6 +1508,13 @@ func checkC03(c *lib.Ctx) {
 			c03CloseTally(r, cs, res)
 			closeRuns++
 			reqs += res.Requests
+			continue
+		}
+		if cs.Kind == "names" {
+			c03NamesTally(r, cs, res)
+			nameRuns++
+			nameCalls += res.Calls
+			nameReqs += res.Requests
 			continue
 		}
 		r.Case(string(canon), res.Reordered > 0)
@@ -1589,6 +1614,7 @@ func checkC03(c *lib.Ctx) {
 	}
 	r.Note("File transfers: %d speculative READs of concurrent WriteTo calls (beyond the chunk that reported EOF) were on the wire without a caller having to account for them", specReads)
 	r.Note("close family: %d runs in which the session was ended (Client.Close on another goroutine, EOF / error / unusable reply on the read side) while a request was being written or outstanding; the recorded wire split into whole frames and the transport's Write and Close calls never overlapped; not expressible in conn.run tokens: a Close that is not an action of the lock holder BETWEEN its two writes is exactly what the model's critical section excludes, so there is no schedule token for it (the tie for that is the extractor's fact about conn.Close taking the lock)", closeRuns)
+	r.Note("names family: %d sessions, %d completed calls, %d requests on the wire: every request kind of the client API × the length of its path(s) / of the handle the peer handed out × payload size. Oracles per session: the recorded client→server stream splits into whole frames with no tail; every frame is, the id aside, byte for byte a request the independent codec (harness/wire) builds for the arguments of some call, and every request of every completed call is there; every call returns within the hang deadline, with the result built for its own request. Not expressible in conn.run tokens: the model's packets have no sizes (a header/payload split that depends on the number of bytes is below its abstraction); the tie is the extractor's fact about the shape of sendPacket", nameRuns, nameCalls, nameReqs)
 	r.Note("abandoned-request family: %d requests abandoned by context cancellation and answered late", abandoned)
 	r.Note("%d calls and %d requests in %d runs; %d batches answered out of arrival order; %d runs crossed the id wrap-around 2^32-1 → 0", calls, reqs, len(cases), reordered, wrapped)
 	n := connCompare(c, "c03", connLines, connInputs)
@@ -1606,6 +1632,9 @@ func c03Class(cs c03Case) string {
 	fam := "perm"
 	if cs.Kind == "close" {
 		return "c03/close/" + cs.Closer
+	}
+	if cs.Kind == "names" {
+		return "c03/names/" + cs.Group
 	}
 	if cs.Kind != "" {
 		fam = cs.Kind
